@@ -89,10 +89,7 @@ theorem evalArrayItems_succ {n : Nat} (ih : AllSat T cfg g L n) (es : List Expr)
   · exact sat_xerr _ _
   · exact sat_pure (by intro v hv; cases hv)
   · fuel_eq
-    refine sat_bind (P := VOK L) ?_ fun v hv => ?_
-    · split
-      · exact ih.eval _ (h _ List.mem_cons_self)
-      · exact sat_xerr _ _
+    refine sat_bind (P := VOK L) (ih.eval _ (h _ List.mem_cons_self)) fun v hv => ?_
     · refine sat_bind (ih.evalArrayItems _ (fun e he => h e (List.mem_cons_of_mem _ he))) fun vs hvs => ?_
       exact sat_pure (forall_cons hv hvs)
 
@@ -1000,7 +997,11 @@ theorem execNode_succ (hS : SetupOK T cfg L) {n : Nat} (ih : AllSat T cfg g L n)
         rcases hx with hx | rfl
         · exact hs.hchanged x (List.mem_filter.mp hx).1
         · exact hout
-      · exact sat_pure trivial
+      · split
+        · split
+          · exact ih.execNodes _ (he _ rfl)
+          · exact sat_pure trivial
+        · exact sat_pure trivial
     · refine sat_bind (ih.evalList _ hw) fun now _ => ?_
       refine sat_bind sat_get fun st _ => ?_
       refine sat_bind (sat_modify fun s hs => ⟨hs.hout, hs.hframes, hs.hworld, hs.hchanged⟩) fun _ _ => ?_
